@@ -317,7 +317,7 @@ func (s asciiString) StrictEquals(other Value) bool {
 		return s == otherStr
 	}
 	if otherStr, ok := other.(*importedString); ok {
-		if otherStr.u == nil {
+		if !otherStr.isScanned() || otherStr.u == nil {
 			return string(s) == otherStr.s
 		}
 	}
